@@ -2,7 +2,8 @@
 
 Spec: Provenance.tla listing layer (entry classes, Legit, ListingOK) + MC_Listing (outcome table of the
 constructor wrappers as coded satisfies ListingOK for every class sequence).  TLC enumerates every class
-sequence up to a length for outboxes (path- and query-style owner ids) and reply collections; the pub
+sequence up to a length for outboxes (path- and query-style owner ids) and reply collections, served by the
+owner's host or anonymously by another host (directly or behind a redirect); the pub
 driver builds a multi-host world per sequence with each entry an unambiguous member of its class, builds
 the owner with pub.New, harvests its children and records what was shown per position, plus every accepted
 (object, id, stamp) and (post host, author host) pair.  T_Prov judges (ListingOK, ProvOK, author rule).
@@ -24,9 +25,11 @@ def collect_events(ctx, res, light=False):
     if key in _cache:
         return _cache[key]
     q = ctx.quick
-    maxlen = 1 if light else (2 if q else 3)
+    maxlen = 2 if (light or q) else 3
     g = ctx.tlc("MC_Listing", "Gen_Listing.cfg", consts={"MaxLen": maxlen})
     sessions = g.json_lines("GEN")
+    if light:
+        sessions = [s for s in sessions if len(s["classes"]) <= 1]
     if len(sessions) < 20:
         raise vlib.Inconclusive("listing generator produced %d sessions" % len(sessions))
     if not q and not light and len(sessions) > 2500:
@@ -44,7 +47,7 @@ def collect_events(ctx, res, light=False):
         done = {e["sid"] for e in evs if e["ev"] == "listing"}
         if "panic:" in txt and begun and begun[-1]["sid"] not in done:
             evs.append({"ev": "listing", "sid": begun[-1]["sid"], "kind": begun[-1]["kind"], "owner": begun[-1]["owner"],
-                        "classes": begun[-1]["classes"], "shown": [], "panic": True, "what": "process crashed: " + txt[-1500:]})
+                        "classes": begun[-1]["classes"], "place": begun[-1].get("place"), "shown": [], "panic": True, "what": "process crashed: " + txt[-1500:]})
         else:
             raise vlib.Inconclusive("listing harness failed:\n" + txt[-2500:])
     res.extra["listing_sessions_from_tlc"] = len(sessions)
@@ -62,24 +65,24 @@ def run(ctx):
     listings = [e for e in evs if e["ev"] == "listing"]
     res.traces = len(listings)
     for e in listings:
-        res.case([e["kind"], e["owner"], e["classes"]])
+        res.case([e["kind"], e["owner"], e.get("place"), e["classes"]])
     res.extra["accept_events"] = sum(1 for e in evs if e["ev"] == "accept")
     res.extra["author_events"] = sum(1 for e in evs if e["ev"] == "author")
     res.extra["legit_shown_as_error"] = sum(1 for e in listings for c, s in zip(e["classes"], e["shown"]) if c.startswith("legit") and s == "error")
     res.rule = ("a case is one listing (an actor's outbox or a post's reply collection) whose entries are drawn from the entry "
                 "classes of Provenance.tla, built on a 4-host world and harvested through the real pub constructors; judged "
                 "position by position by T_Prov (ListingOK) together with the provenance and author-host monitors on every "
-                "object accepted along the way; distinct = distinct (kind, owner id style, class sequence); all sequences up "
+                "object accepted along the way; distinct = distinct (kind, owner id style, where the listing is served, class sequence); all sequences up "
                 "to length 2 (quick) / 3 (thorough, sampled) are enumerated by TLC, longer ones are seeded random")
     for e in listings[:1] + listings[-1:]:
-        res.sample({k: e[k] for k in ("kind", "owner", "classes", "shown")})
+        res.sample({k: e.get(k) for k in ("kind", "owner", "place", "classes", "shown")})
     res.assumptions = ["each class is realised by unambiguous representatives (Go builder); that a legitimate entry is shown is not demanded (reported as legit_shown_as_error)"]
     for b in bad:
         e = evs[b["line"] - 1]
         if e["ev"] == "listing":
             wrong = [c for c, s in zip(e["classes"], e["shown"]) if s == "genuine" and not c.startswith("legit")]
             sig = {"monitor": "ListingOK", "why": b["why"], "class": wrong[0] if wrong else ("length" if len(e["shown"]) != len(e["classes"]) else "panic")}
-            text = "%s of %s-style owner with entries %s shown as %s: %s" % (e["kind"], e["owner"], e["classes"], e["shown"], b["why"])
+            text = "%s of %s-style owner (listing served: %s) with entries %s shown as %s: %s" % (e["kind"], e["owner"], e.get("place"), e["classes"], e["shown"], b["why"])
         elif e["ev"] == "author":
             sig = {"monitor": "AuthorHost", "why": b["why"], "hosts": "%s/%s" % (e["post_host"], e["author_host"])}
             text = "post on host %s shown with author from host %s (%s)" % (e["post_host"], e["author_host"], e["desc"])
